@@ -49,6 +49,8 @@ def history_strategy(opts):
         steps.append(["eval", root, style])
         for _ in range(draw(st.integers(2, 7))):
             choices = ["edit", "edit", "edit", "eval"]
+            if location == "package" and cur["vars"]:
+                choices.append("setvar_live")
             if persistent:
                 choices.append("restart")
             if len(snaps) > 1:
@@ -62,6 +64,13 @@ def history_strategy(opts):
                 steps.append(["edit", ed, inproc])
                 r2, s2 = draw(st.sampled_from(G.entries(cur))) if draw(st.integers(0, 4)) == 0 else (root, style)
                 steps.append(["eval", r2, s2])
+            elif c == "setvar_live":
+                # E1 in its in-process form: the module attribute is assigned while the process runs (no reload)
+                ed = draw(G.edits(cur, root, kinds=["setvar"], opts=opts))
+                cur = M.apply_edit(cur, ed)
+                snaps.append(cur)
+                steps.append(["setvar_live", ed])
+                steps.append(["eval", root, style])
             elif c == "eval":
                 r2, s2 = draw(st.sampled_from(G.entries(cur)))
                 steps.append(["eval", r2, s2])
@@ -141,7 +150,7 @@ def check_case(case, ev=None, scratch=None, stub_check=False):
         snaps = [cur]
         root0 = case["steps"][0][1]
         for stp in case["steps"]:
-            if stp[0] == "edit":
+            if stp[0] in ("edit", "setvar_live"):
                 tk, ti = M.edit_target(stp[1])
                 cl = M.closure(cur, root0)
                 if not M.value_preserving(stp[1]) and tk is not None and ti in cl[tk]:
@@ -183,6 +192,13 @@ def check_case(case, ev=None, scratch=None, stub_check=False):
                         else:
                             sess.write(cur)
                             sess.restart()
+                    elif k == "setvar_live":
+                        _edit_flags(nt, cur, ["edit", stp[1]], root0)
+                        cur = M.apply_edit(cur, stp[1])
+                        snaps.append(cur)
+                        v = cur["vars"][stp[1][1]]
+                        sess.write(cur)   # the file follows (a later restart sees the same value); no reload
+                        sess.w.call("call", module="vf.harness.worker", func="cmd_setvar", args=[M.modname(cur, v["mod"]), v["name"], M.dec(v["val"])])
                     elif k == "restart":
                         sess.restart()
             finally:
@@ -349,7 +365,7 @@ def stub_crosscheck(case, scratch):
             )
 
     c2 = dict(case)
-    c2["steps"] = [[s[0], s[1], False] if s[0] in ("edit", "revert") else s for s in case["steps"]]
+    c2["steps"] = [[s[0], s[1], False] if s[0] in ("edit", "revert") else (["edit", s[1], False] if s[0] == "setvar_live" else s) for s in case["steps"]]
     run_history(c2, scratch, on_eval, stub=True)
 
 
@@ -389,7 +405,7 @@ def features(case):
         if stp[0] == "edit":
             fs.add("edit:" + stp[1][0])
             fs.add("edit-inproc" if stp[2] else "edit-restart")
-        elif stp[0] in ("restart", "revert"):
+        elif stp[0] in ("restart", "revert", "setvar_live"):
             fs.add(stp[0])
         elif stp[0] == "eval":
             fs.add("eval:" + stp[2])
